@@ -169,7 +169,6 @@ def install(prog):
             # float(lo) - 1.0 rounds for 64-bit types: follow num-traits (MIN - 1 is not exactly representable -> >= MIN)
             if dsig and dw >= 64 and x >= float(lo) and x < float(hi + 1): return mk_some(int(x))
             return mk_none()
-        if dw > 64: raise Unsupported('symbolic f64 -> 128-bit int')
         F = z3.Float64()
         lof = z3.FPVal(float(lo) - 1.0, F) if dw < 54 else z3.FPVal(float(lo), F)
         ok = z3.And(z3.Not(z3.fpIsNaN(x)), (z3.fpGT(x, lof) if dw < 54 or not dsig else z3.fpGEQ(x, lof)) if (dsig or True) else True,
@@ -200,9 +199,15 @@ def install(prog):
         it.fresh_n += 1
         return z3.FP('libm_%s_%d_%d' % (m.group(1), len(it.taken), it.fresh_n), z3.Float64())
 
+    @M(r'<f64 as (?:num::|num_traits::)?FloatConst>::(E|PI|LN_2|LN_10|SQRT_2)')
+    def _(it, m, a): return {'E': math.e, 'PI': math.pi, 'LN_2': math.log(2), 'LN_10': math.log(10), 'SQRT_2': math.sqrt(2)}[m.group(1)]
+
     @M(r'(?:std|core)::f64::<impl f64>::(floor|ceil|trunc|round|abs|fract|sqrt|is_nan|is_finite|is_infinite|is_sign_negative|is_sign_positive)')
     def _(it, m, a):
         x = a[0]; k = m.group(1)
+        if k == 'sqrt' and is_sym(x) and getattr(it.prog, 'opaque_float_math', False):
+            it.fresh_n += 1
+            return z3.FP('sqrt_%d_%d' % (len(it.taken), it.fresh_n), z3.Float64())
         if not is_sym(x):
             if k == 'is_nan': return x != x
             if k == 'is_finite': return not (x != x or x in (float('inf'), float('-inf')))
@@ -238,6 +243,26 @@ def install(prog):
         if k == 'fract': return z3.fpSub(z3.RNE(), x, z3.fpRoundToIntegral(z3.RTZ(), x))
         if k == 'sqrt': return z3.fpSqrt(z3.RNE(), x)
         raise Unsupported('f64::' + k)
+
+    @M(r'<&*f64 as (Add|Sub|Mul|Div|Rem)(?:<&*f64>)?>::(?:add|sub|mul|div|rem)')
+    def _(it, m, a): return it.binop(m.group(1), deref(a[0]), deref(a[1]), 'f64')
+
+    @M(r'<&*f64 as Neg>::neg')
+    def _(it, m, a): return it.unop('Neg', deref(a[0]), 'f64') if hasattr(it, 'unop') else it.binop('Sub', -0.0, deref(a[0]), 'f64')
+
+    @M(r'<f64 as (?:num::|num_traits::)?Signed>::(abs|is_negative|is_positive)')
+    def _(it, m, a):
+        x = deref(a[0]); k = m.group(1)
+        if not is_sym(x):
+            if k == 'abs': return abs(x)
+            return (x < 0 or (x == 0 and math.copysign(1, x) < 0)) if k == 'is_negative' else (x > 0 or (x == 0 and math.copysign(1, x) > 0))
+        if k == 'abs': return z3.fpAbs(x)
+        return z3.fpIsNegative(x) if k == 'is_negative' else z3.fpIsPositive(x)
+
+    @M(r'<f64 as (?:num::|num_traits::)?(?:Zero|identities::Zero)>::is_zero')
+    def _(it, m, a):
+        x = deref(a[0])
+        return x == 0 if not is_sym(x) else z3.fpIsZero(x)
 
     @M(r'<&*f64 as PartialEq(?:<&*f64>)?>::(eq|ne)')
     def _(it, m, a):
